@@ -709,6 +709,12 @@ where
                 res
             };
 
+            // The entry may have been deleted or updated while it was being read: do not resurrect the old value.
+            // (A reinsertion only moves the entry and keeps its sequence, the value read is still the current one.)
+            if indexer.get(hash).map(|current| current.sequence) != Some(addr.sequence) {
+                return Ok(Load::Miss);
+            }
+
             let age = match block.statistics().probation.load(Ordering::Relaxed) {
                 true => Age::Old,
                 false => Age::Young,
